@@ -11,19 +11,21 @@ EXTENDS Naturals, Sequences, FiniteSets, TLC, Json
 CONSTANTS Names, Classes, KeyLens
 \* what a client can present under a name
 Kinds == {"absent", "own", "swapped", "flip", "truncate", "extend", "otherkey", "plaintext", "garbage", "empty"}
-VARIABLES stage, except, keylen, class, issued, present, view, wire
-vars == <<stage, except, keylen, class, issued, present, view, wire>>
+VARIABLES stage, except, keylen, class, issued, present, view, wire,
+          outcome    \* how the handler of request 1 ends after it set the cookies: "ok" | "error" (it returns an error)
+vars == <<stage, except, keylen, class, issued, present, view, wire, outcome>>
 
 Init == \* the except list names cookies exactly: an entry that differs in letter case ("A") excepts nothing
         /\ stage = 0 /\ except \in SUBSET (Names \cup {"A"}) /\ keylen \in KeyLens /\ class \in Classes
+        /\ outcome \in {"ok", "error"}
         /\ issued = {} /\ present = [n \in Names |-> "absent"] /\ view = [n \in Names |-> ""] /\ wire = [n \in Names |-> ""]
 
-\* request 1: the handler sets every cookie (plaintext of `class`, distinguishable per name); the response carries
-\* ciphertext for protected names and the plaintext for excepted ones
+\* request 1: the handler sets every cookie (plaintext of `class`, distinguishable per name) and returns, possibly with an error;
+\* whichever way the response is produced, it carries ciphertext for protected names and the plaintext for excepted ones
 HandlerSets == /\ stage = 0 /\ stage' = 1
                /\ issued' = {n \in Names : n \notin except}
                /\ wire' = [n \in Names |-> IF n \in except THEN "plaintext" ELSE "ciphertext"]
-               /\ UNCHANGED <<except, keylen, class, present, view>>
+               /\ UNCHANGED <<except, keylen, class, present, view, outcome>>
 \* request 2: the client presents something under every name
 Other(n) == CHOOSE m \in Names : m # n
 ClientReturns == /\ stage = 1 /\ stage' = 2
@@ -36,12 +38,12 @@ ClientReturns == /\ stage = 1 /\ stage' = 2
                              ELSE CASE pr[n] = "own" -> "pt:own"
                                     [] pr[n] = "swapped" -> "pt:other"          \* issued by the server under the current key (for another name)
                                     [] OTHER -> "empty"]
-                 /\ UNCHANGED <<except, keylen, class, issued, wire>>
+                 /\ UNCHANGED <<except, keylen, class, issued, wire, outcome>>
 Next == HandlerSets \/ ClientReturns
 Spec == Init /\ [][Next]_vars
 
 \* a handler never sees text that was neither issued for some cookie nor (for excepted names) presented verbatim
 OnlyAuthentic == stage = 2 => \A n \in Names : (n \notin except /\ view[n] \notin {"absent", "empty"}) => present[n] \in {"own", "swapped"}
 NeverPlainOnWire == stage >= 1 => \A n \in Names : n \notin except => wire[n] = "ciphertext"
-Emit == stage = 2 => PrintT(<<"CASE", ToJson([except |-> except, keylen |-> keylen, class |-> class, present |-> present, view |-> view, wire |-> wire])>>)
+Emit == stage = 2 => PrintT(<<"CASE", ToJson([outcome |-> outcome, except |-> except, keylen |-> keylen, class |-> class, present |-> present, view |-> view, wire |-> wire])>>)
 =============================================================================
